@@ -192,6 +192,15 @@ impl Reg {
         if let Some(absent) = key("Xe:0") {
             same &= rv.get(&absent) == each!(self, c => c.get(&absent)) && rv["Xe"] == each!(self, c => c["Xe"]);
         }
+        // equality of two borrowed views does not depend on the representations behind them either
+        let alt = match self.as_enum() {
+            ChemicalComposition::Vec(v) => ChemicalComposition::Map(v.into()),
+            ChemicalComposition::Map(m) => ChemicalComposition::Vec(m.into()),
+        };
+        let av = ChemicalCompositionRef::from(&alt);
+        if !(av == rv && rv == av && rv == rv.clone()) {
+            len_s.push_str("!ref-eq-differs");
+        }
         if !same {
             len_s.push_str("!ref-view-differs");
         }
@@ -213,7 +222,10 @@ impl Reg {
         if it_len != len || itm_len != len || via_ref != ents || inner != ents {
             len_s.push_str("!iterator-view-differs");
         }
-        format!("{}|{}|{}|{}|{}|{}", self.form(), cached as u8, micro(mass), micro(calc), len_s, e)
+        // the Display text (code points), whatever the counts: compared across the representations in lock-step
+        let text = each!(self, c => c.to_string());
+        let disp = text.chars().map(|ch| (ch as u32).to_string()).collect::<Vec<_>>().join(".");
+        format!("{}|{}|{}|{}|{}|{}|{}", self.form(), cached as u8, micro(mass), micro(calc), len_s, e, disp)
     }
     fn as_enum(&self) -> ChemicalComposition<'static> {
         match self {
